@@ -39,7 +39,14 @@ def rules(ctx):
                       "gate method, with lam forwarded", floor=16)
     ctx.rule('R06.3', "multi-operand equality gates raise on fewer than two operands", floor=4)
     ctx.rule('R06.4', "operands are never mutated", floor=16)
+    ctx.rule('R06.5', "the penalty reaches the model only through += / -= (also in the AND-shape shortcut of "
+                      "add_constraint_eq_zero) and the recorded polynomial is a fresh, unshared copy", floor=6)
     meths = gate_methods(P)
+    from . import C02
+    C02.merge_discipline(ctx, 'R06.5', list(meths.values()) + [P.func('PCBO.add_constraint_eq_zero'),
+                                                               P.func('_pcbo._special_constraints_eq_zero')])
+    C02.recorded_copy_rules(ctx, E, P.func('PCBO.add_constraint_eq_zero'), 'R06.5', 'R06.5', 'PUBO')
+    C02.record_not_shared(ctx, 'R06.5')
     for name, fn in meths.items():
         selfn = R.self_name(fn)
         g = cfg_of(fn.node)
